@@ -249,6 +249,10 @@ class InjectedFailure(RuntimeError):
     pass
 
 
+class SubmitRefused(InjectedFailure):
+    """Injected fault: the client refuses one submission with a transient error."""
+
+
 class RecOp:
     """Picklable recording callable; the copy that runs 'in a worker' still logs here."""
 
